@@ -913,6 +913,31 @@ def run(ctx: vlib.Ctx):
                 v = L.gen_value(ctx.rng, sc, t, sub_p, junk_p, info)
                 vals.append((i, v, info))
         scen.append((sc, vals))
+    # compile-mode variants: the SAME class table and values once more with every class compiled lazily and every call
+    # carrying a dialect that sets nothing - both are invisible in the model, so model and oracles expect the same results
+    import copy
+    base = [x for x in scen if not x[0].lazy or x[0].dialect is None]
+    for (sc0, vals0) in base[5:]:
+        sc = copy.deepcopy(sc0)
+        sc.sid = str(sc0.sid) + "~lazy+dialect"
+        for c in sc.classes:
+            c.by_alias_own = c.by_alias          # keep the effective Config when every class gets its own Config
+        for c in sc.classes:
+            c.own_config = True
+            c.extra["lazy_compilation"] = "True"
+        sc.lazy = True
+        if sc.dialect is None:
+            sc.dialect = "unset"
+        # only "top" classes stay roots: a class referenced by another class's field is then reached (and compiled)
+        # through its holders only, never through a wrapper of its own
+        referenced = {n for c in sc.classes for (_, _, ft) in c.fields for n in L.data_names(ft)}
+        keep = [i for i, t in enumerate(sc.roots) if not (set(L.data_names(t)) & referenced)]
+        remap = {i: k for k, i in enumerate(keep)}
+        sc.roots = [sc.roots[i] for i in keep]
+        vals = [(remap[i], v, info) for (i, v, info) in vals0
+                if i in remap and not info.get("subclass") and not info.get("junk")]
+        if sc.roots and vals:
+            scen.append((sc, vals))
     # wide scenarios: Config options outside the Coq model (omit_none, omit_default, sort_keys, forbid_extra_keys,
     # allow_deserialization_not_by_alias, lazy_compilation, code generation flags, defaults, kw_only, strategy
     # dialects): no correspondence, but every oracle
